@@ -322,3 +322,91 @@ func SETTARGET_Unsupported(h *rt.H) {
 		h.Assert("refused-or-error", e != nil)
 	}
 }
+
+type deepTarget struct {
+	A int8
+	X interface{}
+	S []int8
+}
+
+// UNFOLD_DeepAbandon (C14, C17): a document nested deeper than the unfolder's initial
+// stacks (32 entries) is abandoned at a symbolically chosen event after an error-free
+// prefix (or runs into a mismatch error); after Reset and SetTarget the same unfolder
+// processes the next documents exactly as a new one does.
+func UNFOLD_DeepAbandon(h *rt.H) {
+	depth := h.Choose("depth", 30, 36)
+	x := int8(h.U8("x"))
+	var t1, t2, t3 deepTarget
+	u, err := gotype.NewUnfolder(&t1)
+	h.Assert("unfolder-created", err == nil)
+	v := structform.EnsureExtVisitor(u)
+	// document 1: {"a":x,"x":[[[...[x]...]]] ...
+	var e error
+	step := func(r error) {
+		if e == nil {
+			e = r
+		}
+	}
+	step(v.OnObjectStart(-1, structform.AnyType))
+	step(v.OnKey("a"))
+	step(v.OnInt8(x))
+	step(v.OnKey("x"))
+	for i := 0; i < depth; i++ {
+		step(v.OnArrayStart(-1, structform.AnyType))
+	}
+	step(v.OnInt8(x))
+	h.Assert("deep-prefix-accepted", e == nil)
+	switch h.Choose("abandon", 0, 2) {
+	case 0: // abandoned at the deepest point
+	case 1: // closed again half way, then abandoned
+		for i := 0; i < depth/2; i++ {
+			step(v.OnArrayFinished())
+		}
+		h.Assert("half-closed", e == nil)
+	case 2: // closed completely, then a mismatch: "s" wants an array
+		for i := 0; i < depth; i++ {
+			step(v.OnArrayFinished())
+		}
+		step(v.OnKey("s"))
+		h.Assert("closed", e == nil)
+		h.Assert("mismatch-is-an-error", v.OnString("no array") != nil)
+	}
+	doc := func(w structform.ExtVisitor) error {
+		var e error
+		step := func(r error) {
+			if e == nil {
+				e = r
+			}
+		}
+		step(w.OnObjectStart(-1, structform.AnyType))
+		step(w.OnKey("a"))
+		step(w.OnInt8(x))
+		step(w.OnKey("x"))
+		step(w.OnArrayStart(-1, structform.AnyType))
+		step(w.OnInt8(x))
+		step(w.OnArrayFinished())
+		step(w.OnKey("s"))
+		step(w.OnArrayStart(1, structform.AnyType))
+		step(w.OnInt8(x))
+		step(w.OnArrayFinished())
+		step(w.OnObjectFinished())
+		return e
+	}
+	u.Reset()
+	h.Assert("settarget", u.SetTarget(&t2) == nil)
+	h.Assert("next-document", doc(v) == nil)
+	// once more: a repaired state must stay repaired
+	u.Reset()
+	h.Assert("settarget-2", u.SetTarget(&t2) == nil)
+	h.Assert("next-document-2", doc(v) == nil)
+	u2, err := gotype.NewUnfolder(&t3)
+	h.Assert("fresh-created", err == nil)
+	h.Assert("fresh-document", doc(structform.EnsureExtVisitor(u2)) == nil)
+	a2, ok2 := t2.X.([]interface{})
+	a3, ok3 := t3.X.([]interface{})
+	same := ok2 && ok3 && len(a2) == 1 && len(a3) == 1 && len(t2.S) == 1 && len(t3.S) == 1
+	if same {
+		same = rt.And(rt.And(t2.A == x, t3.A == x), rt.And(t2.S[0] == x, t3.S[0] == x))
+	}
+	h.Assert("same-as-fresh", same)
+}
